@@ -806,8 +806,98 @@ fn exec_inner(t: &[&str]) -> Option<Out> {
                 Some(Out { line: line.clone(), out, fails, stats, nontrivial: p0 == Proof::Secure || !fresh })
             })
         }
+        ["dk", now, anchors, keys, sg] => {
+            // implementation only: a DNSKEY query for the root zone through DnssecDnsHandle::send
+            // (verify_dnskey_rrset: trust anchors, no DS for the root, RRSIG over the DNSKEY RRset)
+            let now: u32 = now.parse().ok()?;
+            let ks: Vec<K> = keys.split('|').map(K::parse).collect::<Option<Vec<_>>>()?;
+            let anchor_idx: Vec<usize> = if *anchors == "-" { vec![] } else { anchors.split(',').map(|x| x.parse().ok()).collect::<Option<Vec<_>>>()? };
+            let s = S::parse(sg)?;
+            let root = N { labels: vec![], fqdn: true };
+            let recs_n: Vec<Rec> = ks.iter().map(|k| Rec { name: k.owner.clone(), rtype: 48, cls: 1, ttl: s.ttl, rd: RD::Op(k.rdata()) }).collect();
+            let mut ta = TrustAnchors::empty();
+            for i in &anchor_idx {
+                let k = ks.get(*i)?;
+                ta.insert(&PublicKeyBuf::new(k.pk.clone(), Algorithm::from_u8(k.alg)));
+            }
+            let up = Upstream { script: Arc::new(Mutex::new(Script::default())), dnskey_queries: Arc::new(AtomicUsize::new(0)), other_queries: Arc::new(AtomicUsize::new(0)) };
+            {
+                let mut sc = up.script.lock().unwrap();
+                let mut ans: Vec<Record> = ks
+                    .iter()
+                    .map(|k| {
+                        let mut r = k.to_record()?;
+                        r.ttl = s.ttl;
+                        Some(r)
+                    })
+                    .collect::<Option<Vec<_>>>()?;
+                ans.push(s.to_record()?);
+                sc.answers.insert((name_tok(&Name::root()), 48), ans);
+            }
+            let handle = DnssecDnsHandle::with_trust_anchor(up.clone(), Arc::new(ta));
+            CLOCK.store(now as u64, AtOrd::SeqCst);
+            let rt = tokio::runtime::Builder::new_current_thread().enable_all().build().ok()?;
+            let req = DnsRequest::from_query(Query::new(Name::root(), RecordType::DNSKEY), DnsRequestOptions::default());
+            let res = rt.block_on(async move { handle.send(req).first_answer().await });
+            let msg: Option<Message> = match res {
+                Ok(r) => Some(r.into_message()),
+                Err(NetError::Dns(DnsError::Nsec { response, .. })) => Some(response.into_message()),
+                Err(_) => None,
+            };
+            let secure = msg.as_ref().map(|m| m.answers.iter().any(|a| a.record_type() == RecordType::DNSKEY && a.proof == Proof::Secure)).unwrap_or(false);
+            // acceptable only through a trust-anchored key of the set that is an acceptable signer of the set
+            let mut best: Option<Vec<&str>> = None;
+            for (i, k) in ks.iter().enumerate() {
+                let mut bad = indep_check(now, Proof::Secure, k, &s, &root, 48, &recs_n);
+                if !anchor_idx.contains(&i) {
+                    bad.push("not-a-trust-anchor");
+                }
+                if best.as_ref().map(|x| bad.len() < x.len()).unwrap_or(true) {
+                    best = Some(bad);
+                }
+            }
+            let bad = best.unwrap_or(vec!["no-key"]);
+            let all_anchors = !ks.is_empty() && (0..ks.len()).all(|i| anchor_idx.contains(&i));
+            let mut fails = vec![];
+            if secure && !bad.is_empty() && !all_anchors {
+                fails.push((format!("DNSKEY RRset Secure although no trust-anchored key of the set is an acceptable signer of it: {}", bad.join(", ")), String::new()));
+            }
+            let signer_flags = ks.iter().find(|k| ref_key_tag(&k.rdata()) == s.tag).map(|k| k.flags.to_string()).unwrap_or("none".into());
+            let stats = vec![format!("dk.{}.signer-flags-{}{}", if secure { "secure" } else { "rejected" }, signer_flags, if bad.is_empty() { ".acceptable" } else { "" })];
+            Some(Out { line: format!("dk {now} {anchors} {} {}", ks.iter().map(|k| k.tok()).collect::<Vec<_>>().join("|"), s.tok()), out: "~".into(), fails, stats, nontrivial: secure || bad.len() == 1 })
+        }
         _ => None,
     }
+}
+
+/// a `dk` line: the root zone's DNSKEY RRset {KSK with `flags` (trust anchor, signs the set), a ZSK that is
+/// not a trust anchor}, the RRSIG naming the KSK; optionally one more mutation of the RRSIG
+fn gen_dk(r: &mut Rng, flags: u16) -> Option<String> {
+    let n = c05::sign_keys().len();
+    let ki = r.below(n as u64) as usize;
+    let zi = (ki + 1 + r.below(n as u64 - 1) as usize) % n;
+    let root = N { labels: vec![], fqdn: true };
+    let mut ksk = real_key(ki);
+    ksk.owner = root.clone();
+    ksk.flags = flags;
+    let mut zsk = real_key(zi);
+    zsk.owner = root.clone();
+    zsk.flags = 256;
+    let ttl = *r.pick(&[300u32, 3600, 172800]);
+    let keys = if r.chance(1, 2) { vec![ksk.clone(), zsk] } else { vec![zsk, ksk.clone()] };
+    let recs: Vec<Rec> = keys.iter().map(|k| Rec { name: root.clone(), rtype: 48, cls: 1, ttl, rd: RD::Op(k.rdata()) }).collect();
+    let inc = 1_700_000_000u32;
+    let mut s = S { owner: root.clone(), cls: 1, ttl, tc: 48, alg: ksk.alg, labels: 0, ottl: ttl, exp: inc + 86400, inc, tag: ref_key_tag(&ksk.rdata()), signer: root.clone(), sig: vec![] };
+    let bytes = s.ref_case(&root, 1, &recs).ref_signed_data()?;
+    s.sig = sign_with(ki, &bytes);
+    let mut now = inc + 10;
+    match r.below(8) {
+        0 => flip_bit(&mut s.sig, r),
+        1 => now = inc + 86401,
+        _ => {}
+    }
+    let ai = keys.iter().position(|k| k.pk == ksk.pk)?;
+    Some(format!("dk {now} {ai} {} {}", keys.iter().map(|k| k.tok()).collect::<Vec<_>>().join("|"), s.tok()))
 }
 
 // ------------------------------------------------------------------ generator
@@ -822,7 +912,19 @@ struct Base {
     now: u32,
 }
 
+/// key flags: zone key (256), zone key + SEP (257), the same with REVOKE (384, 385), not a zone key (0, 1)
+const KEY_FLAGS: &[u16] = &[256, 257, 384, 385, 0, 1, 128];
+
 fn gen_base(r: &mut Rng) -> Base {
+    gen_base_with(r, false)
+}
+
+/// `plain`: a valid, acceptable base (zone key, not revoked) — for the histories that need a Secure start
+fn gen_base_with(r: &mut Rng, plain: bool) -> Base {
+    gen_base_full(r, plain, None)
+}
+
+fn gen_base_full(r: &mut Rng, plain: bool, forced_type: Option<u16>) -> Base {
     let ki = r.below(c05::sign_keys().len() as u64) as usize;
     let mut zone = c05::lower_n(&c05::gen_n(r));
     zone.fqdn = true;
@@ -833,7 +935,17 @@ fn gen_base(r: &mut Rng) -> Base {
     if r.chance(2, 3) {
         name.labels.insert(0, r.pick(&[&b"www"[..], b"Mail", b"a", b"_sip"]).to_vec());
     }
-    let ty = *r.pick(&[1u16, 1, 2, 15, 16, 28, 33, 5, 6, 43, 52, 47, 48]);
+    let ty = forced_type.unwrap_or(*r.pick(&[1u16, 1, 2, 15, 16, 28, 33, 5, 6, 12, 43, 52, 47, 48, 48, 64, 65, 65305, 35]));
+    if ty == 48 {
+        // the zone's own DNSKEY RRset (self-signature)
+        name = zone.clone();
+    }
+    let mut k = real_key(ki);
+    k.owner = c05::flip_case(r, &zone, 20);
+    // the key that signs: usually acceptable, otherwise revoked / not a zone key — with the RRSIG naming
+    // exactly this key (tag computed over these flags), so that only the flag tests stand in the way
+    k.flags = if plain || r.chance(3, 5) { *r.pick(&[257u16, 256]) } else { *r.pick(KEY_FLAGS) };
+    let clean = r.chance(1, 2);
     let pool = c05::name_pool(r);
     let n = if ty == 5 || ty == 6 { 1 } else { r.range(1, 3) as usize };
     let ttl = *r.pick(&[0u32, 30, 300, 3600, 86400]);
@@ -841,7 +953,12 @@ fn gen_base(r: &mut Rng) -> Base {
     let mut tries = 0;
     while recs.len() < n && tries < 20 {
         tries += 1;
-        let rd = c05::gen_rd(r, ty, &pool, true);
+        let rd = if ty == 48 && recs.is_empty() {
+            RD::Op(k.rdata())
+        } else {
+            // mixed-case embedded names for every name-bearing type (half of the cases)
+            c05::gen_rd(r, ty, &pool, clean)
+        };
         if matches!(rd, RD::Txt(ref ss) if ss.iter().any(|s| s.len() > 255)) || recs.iter().any(|x| x.rd.ref_canon() == rd.ref_canon()) {
             continue;
         }
@@ -851,8 +968,6 @@ fn gen_base(r: &mut Rng) -> Base {
     let dur = *r.pick(&[0u32, 1, 10, 3600, 86400 * 30, 0x7FFF_FFFF, 0x7FFF_FFFE]);
     let exp = inc.wrapping_add(dur);
     let now = inc.wrapping_add(if dur == 0 { 0 } else { r.below(dur as u64 + 1) as u32 });
-    let mut k = real_key(ki);
-    k.owner = c05::flip_case(r, &zone, 20);
     let mut s = S {
         owner: c05::flip_case(r, &name, 20),
         cls: 1,
@@ -927,6 +1042,90 @@ fn inject_other_class(recs: &mut Vec<Rec>, r: &mut Rng) -> String {
     format!("rrset.inject-other-class.{}", where_.join("+"))
 }
 
+/// every RDATA type with an embedded domain name that the harness can build
+const NAME_BEARING_TYPES: &[u16] = &[2, 5, 12, 15, 6, 33, 35, 47, 64, 65, 65305];
+
+/// byte region of the embedded name of a case-preserving opaque type
+fn name_region(ty: u16, raw: &[u8]) -> Option<(usize, usize)> {
+    let st = match ty {
+        64 | 65 => 2,
+        65305 | 47 => 0,
+        _ => return None,
+    };
+    let mut i = st;
+    while i < raw.len() && raw[i] != 0 {
+        i += raw[i] as usize + 1;
+    }
+    (i < raw.len()).then_some((st, i + 1 - st))
+}
+
+/// Changes only the letter case of the names embedded in the RDATA: `lower` = all lower case, else a
+/// random (non-identical, if there is a letter) case flip.  Returns false if the RDATA has no letters in a name.
+fn set_embedded_case(rd: &mut RD, ty: u16, lower: bool, r: &mut Rng) -> bool {
+    fn bytes(v: &mut [u8], lower: bool, r: &mut Rng) -> bool {
+        if !v.iter().any(|x| x.is_ascii_alphabetic()) {
+            return false;
+        }
+        if lower {
+            v.make_ascii_lowercase();
+        } else {
+            let before = v.to_vec();
+            for x in v.iter_mut() {
+                if x.is_ascii_alphabetic() && r.chance(1, 2) {
+                    *x ^= 0x20;
+                }
+            }
+            if v == &before[..] {
+                let i = v.iter().position(|x| x.is_ascii_alphabetic()).unwrap();
+                v[i] ^= 0x20;
+            }
+        }
+        true
+    }
+    fn name(n: &mut N, lower: bool, r: &mut Rng) -> bool {
+        let mut any = false;
+        let mut flat: Vec<u8> = n.labels.concat();
+        if bytes(&mut flat, lower, r) {
+            any = true;
+            let mut i = 0;
+            for l in n.labels.iter_mut() {
+                let k = l.len();
+                l.copy_from_slice(&flat[i..i + k]);
+                i += k;
+            }
+        }
+        any
+    }
+    match rd {
+        RD::Ns(n) | RD::Cname(n) | RD::Ptr(n) | RD::Mx(_, n) | RD::Srv(_, _, _, n) => name(n, lower, r),
+        RD::Soa(m, rn, ..) => {
+            let a = name(m, lower, r);
+            let b2 = name(rn, lower, r);
+            a || b2
+        }
+        RD::OpL(o, st, ln) => bytes(&mut o[*st..*st + *ln], lower, r),
+        RD::Op(o) => match name_region(ty, o) {
+            Some((st, ln)) => {
+                // label length octets are below 64 and therefore never letters
+                bytes(&mut o[st..st + ln], lower, r)
+            }
+            None => false,
+        },
+        _ => false,
+    }
+}
+
+/// the octets of an RDATA that can be permuted / XOR-ed without making it unparsable
+fn raw_octets_mut(rd: &mut RD) -> Option<&mut Vec<u8>> {
+    match rd {
+        RD::A(o) | RD::Aaaa(o) => Some(o),
+        RD::Op(o) if o.len() >= 2 => Some(o),
+        RD::Txt(ss) => ss.iter_mut().find(|s| s.len() >= 2),
+        RD::Ns(n) | RD::Cname(n) | RD::Ptr(n) | RD::Mx(_, n) | RD::Srv(_, _, _, n) | RD::Soa(n, ..) => n.labels.iter_mut().find(|l| l.len() >= 2),
+        _ => None,
+    }
+}
+
 fn flip_bit(v: &mut [u8], r: &mut Rng) {
     if !v.is_empty() {
         let i = r.below(v.len() as u64) as usize;
@@ -973,10 +1172,39 @@ fn mutate_rd(rd: &mut RD, r: &mut Rng) -> &'static str {
         RD::Op(o) => {
             if o.is_empty() {
                 o.push(1);
+                "rdata.bit"
+            } else if o.iter().any(|x| x.is_ascii_alphabetic()) && r.chance(1, 3) {
+                // canonical form of these types is the wire form: a letter-case change is a signed change
+                let before = o.clone();
+                for x in o.iter_mut() {
+                    if x.is_ascii_alphabetic() && r.chance(1, 2) {
+                        *x ^= 0x20;
+                    }
+                }
+                if *o == before {
+                    let i = o.iter().position(|x| x.is_ascii_alphabetic()).unwrap();
+                    o[i] ^= 0x20;
+                }
+                "rdata.letter-case (case-preserving type)"
             } else {
                 flip_bit(o, r);
+                "rdata.bit"
             }
-            "rdata.bit"
+        }
+        RD::OpL(o, st, ln) => {
+            if r.chance(1, 2) && o[*st..*st + *ln].iter().any(|x| x.is_ascii_alphabetic()) {
+                // inside the lower-cased embedded name: the canonical form does not change
+                for x in o[*st..*st + *ln].iter_mut() {
+                    if x.is_ascii_alphabetic() && r.chance(1, 2) {
+                        *x ^= 0x20;
+                    }
+                }
+                "rdata.embedded-name-case (unsigned)"
+            } else {
+                let i = if *st > 0 { r.below(*st as u64) as usize } else { o.len() - 1 };
+                o[i] ^= 1 << r.below(5);
+                "rdata.bit"
+            }
         }
         RD::Ns(n) | RD::Cname(n) | RD::Ptr(n) => mutate_name(n, r),
         RD::Mx(p, n) => {
@@ -1215,10 +1443,13 @@ fn h_line(now: u32, inst: u64, keys: &[K], s: &S, name: &N, ty: u16, recs: &[Rec
 
 /// one history: validate; advance the clock / change what upstream serves; validate again
 fn gen_history(r: &mut Rng, kind: u64) -> Option<Vec<String>> {
-    let mut b = gen_base(r);
+    // kind 12 draws the signing key's flags from the whole family; the others start from an acceptable key
+    let plain = kind != 12 && !r.chance(1, 10);
+    let mut b = gen_base_with(r, plain);
     while b.ty == 48 {
         // a DNSKEY RRset takes the verify_dnskey_rrset path (C07), which this model does not cover
-        b = gen_base(r);
+        // (exercised implementation-only by the `dk` lines)
+        b = gen_base_with(r, plain);
     }
     // histories use plain (non-wrapping) windows and TTLs that are 0 or long: the cache runs on real time
     b.s.inc = *r.pick(&[1_700_000_000u32, 0xFFFF_FF00, 100]);
@@ -1353,6 +1584,139 @@ fn gen_history(r: &mut Rng, kind: u64) -> Option<Vec<String>> {
             lines.push(h_line(t0, 0, &keys, &b.s, &b.name, b.ty, &recs2)?);
             lines.push(h_line(t0, 0, &keys, &b.s, &b.name, b.ty, &b.recs)?);
         }
+        11 => {
+            // cache-key collision family: validate X, then probe with inputs that differ from X in exactly
+            // one component of the cache key (or have two components swapped / XOR-ed by the same value);
+            // every probe must get its own, correct verdict; finally X again (served from the cache)
+            resign(&mut b);
+            let x = |b: &Base| h_line(t0, 0, &[b.k.clone()], &b.s, &b.name, b.ty, &b.recs);
+            lines.push(x(&b)?);
+            let clone = |b: &Base| Base { ki: b.ki, k: b.k.clone(), s: b.s.clone(), name: b.name.clone(), ty: b.ty, recs: b.recs.clone(), now: t0 };
+            let mut probes: Vec<Base> = vec![];
+            {
+                // owner: one more label; labels in another order
+                let mut v = clone(&b);
+                v.name.labels.insert(0, b"x".to_vec());
+                v.s.owner = v.name.clone();
+                v.recs.iter_mut().for_each(|q| q.name = v.name.clone());
+                probes.push(v);
+                if b.name.labels.len() >= 2 && b.name.labels[0] != b.name.labels[1] {
+                    let mut v = clone(&b);
+                    v.name.labels.swap(0, 1);
+                    v.s.owner = v.name.clone();
+                    v.recs.iter_mut().for_each(|q| q.name = v.name.clone());
+                    probes.push(v);
+                }
+                // type: the same RDATA octets under another type
+                let mut v = clone(&b);
+                v.ty = if b.ty == 65280 { 65281 } else { 65280 };
+                v.s.tc = v.ty;
+                for q in v.recs.iter_mut() {
+                    q.rtype = v.ty;
+                    q.rd = RD::Op(q.rd.ref_canon().unwrap_or_default());
+                }
+                probes.push(v);
+                // class
+                let mut v = clone(&b);
+                v.s.cls = 3;
+                v.recs.iter_mut().for_each(|q| q.cls = 3);
+                probes.push(v);
+                // key tag: one bit, octets swapped
+                let mut v = clone(&b);
+                v.s.tag ^= 1 << r.below(16);
+                probes.push(v);
+                let mut v = clone(&b);
+                v.s.tag = v.s.tag.swap_bytes();
+                probes.push(v);
+                // signer
+                let mut v = clone(&b);
+                v.s.signer.labels.insert(0, b"s".to_vec());
+                probes.push(v);
+                // signature octets: one bit, two octets swapped, reversed
+                let mut v = clone(&b);
+                flip_bit(&mut v.s.sig, r);
+                probes.push(v);
+                let mut v = clone(&b);
+                if let Some(i) = (0..v.s.sig.len() - 1).find(|i| v.s.sig[*i] != v.s.sig[*i + 1]) {
+                    v.s.sig.swap(i, i + 1);
+                }
+                probes.push(v);
+                let mut v = clone(&b);
+                v.s.sig.reverse();
+                probes.push(v);
+                // RDATA: two octets of a record swapped; all records XOR-ed with the same value; records swapped
+                let mut v = clone(&b);
+                if let Some(raw) = raw_octets_mut(&mut v.recs[0].rd) {
+                    if let Some(i) = (0..raw.len().saturating_sub(1)).find(|i| raw[*i] != raw[*i + 1]) {
+                        raw.swap(i, i + 1);
+                    }
+                }
+                probes.push(v);
+                let mut v = clone(&b);
+                let d = 1u8 << r.below(3);
+                for q in v.recs.iter_mut() {
+                    if let Some(raw) = raw_octets_mut(&mut q.rd) {
+                        if let Some(l) = raw.last_mut() {
+                            *l ^= d;
+                        }
+                    }
+                }
+                probes.push(v);
+                if b.recs.len() >= 2 {
+                    let mut v = clone(&b);
+                    v.recs.swap(0, 1); // the same set in another order: a different key, the same verdict
+                    probes.push(v);
+                }
+                // RRSIG fields: two swapped with each other, single ones altered
+                let mut v = clone(&b);
+                std::mem::swap(&mut v.s.exp, &mut v.s.inc);
+                probes.push(v);
+                let mut v = clone(&b);
+                std::mem::swap(&mut v.s.exp, &mut v.s.ottl);
+                probes.push(v);
+                let mut v = clone(&b);
+                let (e, i) = (v.s.exp, v.s.inc);
+                v.s.exp = e ^ 0x10;
+                v.s.inc = i ^ 0x10;
+                probes.push(v);
+                let mut v = clone(&b);
+                v.s.labels ^= 1;
+                probes.push(v);
+                let mut v = clone(&b);
+                v.s.alg = if v.s.alg == 13 { 15 } else { 13 };
+                probes.push(v);
+                let mut v = clone(&b);
+                v.s.ottl ^= 1;
+                probes.push(v);
+                // TTLs are not part of the key (and not signed): the cached verdict is the right one
+                let mut v = clone(&b);
+                v.recs.iter_mut().for_each(|q| q.ttl = q.ttl.wrapping_add(1));
+                probes.push(v);
+                let mut v = clone(&b);
+                v.s.ttl = v.s.ttl.wrapping_add(7);
+                probes.push(v);
+            }
+            for v in &probes {
+                if let Some(l) = x(v) {
+                    lines.push(l);
+                }
+            }
+            lines.push(x(&b)?);
+        }
+        12 => {
+            // the signing key's flags come from the whole family {256, 257, 384, 385, 0, 1, 128}: an RRset whose
+            // only verifying key is revoked or not a zone key is never Secure, fresh or cached
+            resign(&mut b);
+            lines.push(h_line(t0, 0, &keys, &b.s, &b.name, b.ty, &b.recs)?);
+            let mut k2 = b.k.clone();
+            k2.flags = *r.pick(KEY_FLAGS);
+            let mut s2 = b.s.clone();
+            if r.chance(1, 2) {
+                s2.tag = ref_key_tag(&k2.rdata());
+            }
+            lines.push(h_line(t0, 0, &[k2], &s2, &b.name, b.ty, &b.recs)?);
+            lines.push(h_line(t0, 0, &keys, &b.s, &b.name, b.ty, &b.recs)?);
+        }
         _ => {
             // wrong key first (Bogus is cached), then the right key; and the reverse
             resign(&mut b);
@@ -1392,7 +1756,7 @@ fn hand_histories() -> Vec<Vec<String>> {
     let mut r = Rng::new(606);
     let mut v = vec![];
     let mk = |r: &mut Rng, ttl: u32, life: u32| {
-        let mut b = gen_base(r);
+        let mut b = gen_base_with(r, true);
         b.name = c05::nm("www.example.com.");
         b.ty = 1;
         b.recs = vec![
@@ -1469,7 +1833,7 @@ pub fn run(o: &Opts, rec: &mut Recorder) {
         exec(&format!("attl {} {} {} {}", v(&mut r), v(&mut r), v(&mut r), v(&mut r)), rec);
     }
     // pure part
-    for _ in 0..o.n(1500, 150_000) {
+    for _ in 0..o.n(4000, 150_000) {
         let mut rr = r.fork();
         let g = catch(move || {
             let mut b = gen_base(&mut rr);
@@ -1480,6 +1844,9 @@ pub fn run(o: &Opts, rec: &mut Recorder) {
         match g {
             Ok(Some((lab, l))) => {
                 rec.stat(&format!("mutation.{}", lab.split('.').next().unwrap_or("?")));
+                if lab.contains("case") {
+                    rec.stat(&format!("mutation.{lab}"));
+                }
                 exec(&l, rec);
             }
             Ok(None) => rec.stat("generator.unbuildable"),
@@ -1493,7 +1860,7 @@ pub fn run(o: &Opts, rec: &mut Recorder) {
     {
         let mut hr = Rng::new(6061);
         for _ in 0..o.n(6, 40) {
-            let mut b = gen_base(&mut hr);
+            let mut b = gen_base_with(&mut hr, true);
             let clocks = make_empty_window(&mut b, &mut hr);
             for c in clocks {
                 b.now = c;
@@ -1504,7 +1871,7 @@ pub fn run(o: &Opts, rec: &mut Recorder) {
             }
         }
         for _ in 0..o.n(20, 200) {
-            let mut b = gen_base(&mut hr);
+            let mut b = gen_base_with(&mut hr, true);
             let base_recs = b.recs.clone();
             for cls in [3u16, 4, 254, 65280] {
                 for pos in 0..=base_recs.len() {
@@ -1521,17 +1888,82 @@ pub fn run(o: &Opts, rec: &mut Recorder) {
             }
         }
     }
+    // embedded-name case family: for every RDATA type with an embedded name, sign with the names in one
+    // letter case and present them in another (both directions).  For the types of the RFC 4034 §6.2 /
+    // RFC 6840 §5.1 list the canonical form is the same (still Secure is fine); for the case-preserving
+    // types (NSEC, SVCB, HTTPS, ANAME, …) the signature does not cover the presented RDATA.
+    {
+        let mut er = Rng::new(6063);
+        for _ in 0..o.n(8, 120) {
+            for ty in NAME_BEARING_TYPES {
+                for sign_lower in [true, false] {
+                    let mut b = gen_base_full(&mut er, true, Some(*ty));
+                    let mut any = false;
+                    for q in b.recs.iter_mut() {
+                        any |= set_embedded_case(&mut q.rd, *ty, sign_lower, &mut er);
+                    }
+                    if !any {
+                        continue;
+                    }
+                    let Some(bytes) = b.s.ref_case(&b.name, 1, &b.recs).ref_signed_data() else { continue };
+                    b.s.sig = sign_with(b.ki, &bytes);
+                    for q in b.recs.iter_mut() {
+                        set_embedded_case(&mut q.rd, *ty, !sign_lower, &mut er);
+                    }
+                    if let Some(l) = vk_line(&b, Proof::Secure) {
+                        rec.stat(&format!("embedded-name-case.type-{ty}.signed-{}", if sign_lower { "lower" } else { "mixed" }));
+                        exec(&l, rec);
+                    }
+                }
+            }
+        }
+    }
+    // key-flag family: every flag value × {the zone's own DNSKEY RRset, a data RRset} through the hook,
+    // and the DNSKEY RRset of the root zone through DnssecDnsHandle::send (implementation only)
+    {
+        let mut fr = Rng::new(6062);
+        for round in 0..o.n(12, 120) {
+            for flags in KEY_FLAGS {
+                for want_dnskey in [true, false] {
+                    let mut b = gen_base_with(&mut fr, true);
+                    let mut tries = 0;
+                    while (b.ty == 48) != want_dnskey && tries < 60 {
+                        b = gen_base_with(&mut fr, true);
+                        tries += 1;
+                    }
+                    b.k.flags = *flags;
+                    if b.ty == 48 {
+                        b.recs[0].rd = RD::Op(b.k.rdata());
+                    }
+                    b.s.tag = ref_key_tag(&b.k.rdata());
+                    if let Some(bytes) = b.s.ref_case(&b.name, 1, &b.recs).ref_signed_data() {
+                        b.s.sig = sign_with(b.ki, &bytes);
+                        if let Some(l) = vk_line(&b, Proof::Secure) {
+                            rec.stat(&format!("keyflags.vk.{}.{flags}", if want_dnskey { "dnskey-set" } else { "data-set" }));
+                            exec(&l, rec);
+                        }
+                    }
+                }
+                if round < o.n(12, 60) {
+                    if let Some(l) = gen_dk(&mut fr, *flags) {
+                        rec.stat(&format!("keyflags.dk.{flags}"));
+                        exec(&l, rec);
+                    }
+                }
+            }
+        }
+    }
     // history part
     for h in hand_histories() {
         for l in h {
             exec(&l, rec);
         }
     }
-    for i in 0..o.n(250, 20_000) {
+    for i in 0..o.n(840, 28_000) {
         let mut rr = r.fork();
-        match catch(move || gen_history(&mut rr, i as u64 % 11)) {
+        match catch(move || gen_history(&mut rr, i as u64 % 14)) {
             Ok(Some(h)) => {
-                rec.stat(&format!("history.kind.{}", i % 11));
+                rec.stat(&format!("history.kind.{}", i % 14));
                 for l in h {
                     exec(&l, rec);
                 }
